@@ -377,7 +377,7 @@ func (x *Exec) assignTo(e *Env, l ast.Expr, v Value, define bool) {
 			i := e.indexTerm(iv)
 			x.safety(e, "index", n, And(Le(IntC(0), i), Lt(i, b.Len)))
 			arr := x.memArr(e.st, b.Alloc, b.path)
-			sv := e.assignable(v, b.Elem).(Scalar)
+			sv := elemCoerce(e.assignable(v, b.Elem).(Scalar), arr.T.S.Elem)
 			x.setMem(e.st, b.Alloc, b.path, ArrayV{T: Store(arr.T, Add(b.Off, i), sv.T), N: arr.N, Elem: arr.Elem, Typ: arr.Typ})
 		case PtrV:
 			arr, ok := navigate(x.memCell(e.st, b.Alloc), b.Path).(ArrayV)
@@ -387,13 +387,13 @@ func (x *Exec) assignTo(e *Env, l ast.Expr, v Value, define bool) {
 			x.safety(e, "nil", n, Not(b.Nil))
 			i := e.indexTerm(iv)
 			x.safety(e, "index", n, And(Le(IntC(0), i), Lt(i, IntC(arr.N))))
-			sv := e.assignable(v, arr.Elem).(Scalar)
+			sv := elemCoerce(e.assignable(v, arr.Elem).(Scalar), arr.T.S.Elem)
 			x.setMem(e.st, b.Alloc, b.Path, ArrayV{T: Store(arr.T, i, sv.T), N: arr.N, Elem: arr.Elem, Typ: arr.Typ})
 		case ArrayV:
 			i := e.indexTerm(iv)
 			x.safety(e, "index", n, And(Le(IntC(0), i), Lt(i, IntC(b.N))))
 			p := x.placeOf(e, n.X)
-			sv := e.assignable(v, b.Elem).(Scalar)
+			sv := elemCoerce(e.assignable(v, b.Elem).(Scalar), b.T.S.Elem)
 			x.writePlace(e, p, ArrayV{T: Store(b.T, i, sv.T), N: b.N, Elem: b.Elem, Typ: b.Typ})
 		case SeqV:
 			x.seqStore(e, n.X, b, iv, v)
@@ -910,31 +910,52 @@ func assignedIn(info *types.Info, nodes ...ast.Node) map[types.Object]bool {
 }
 
 func assignedIn2(info *types.Info, nodes ...ast.Node) (direct, through map[types.Object]bool) {
+	d, t, _ := assignedIn3(info, nodes...)
+	return d, t
+}
+
+// assignedIn3 additionally reports, for variables written through, the first field of the written
+// path ("" when the whole pointee / an element is written).
+func assignedIn3(info *types.Info, nodes ...ast.Node) (direct, through map[types.Object]bool, fields map[types.Object]map[string]bool) {
 	direct = map[types.Object]bool{}
 	through = map[types.Object]bool{}
+	fields = map[types.Object]map[string]bool{}
 	mark := func(e ast.Expr) {
 		res := direct
+		field := ""
 		for {
 			switch n := e.(type) {
 			case *ast.Ident:
-				if o := info.Uses[n]; o != nil {
-					res[o] = true
+				var o types.Object
+				if o = info.Uses[n]; o == nil {
+					o = info.Defs[n]
 				}
-				if o := info.Defs[n]; o != nil {
+				if o != nil {
 					res[o] = true
+					if res[o] && len(through) >= 0 {
+						if _, isT := through[o]; isT {
+							if fields[o] == nil {
+								fields[o] = map[string]bool{}
+							}
+							fields[o][field] = true
+						}
+					}
 				}
 				return
 			case *ast.IndexExpr:
 				e = n.X
 				res = through
+				field = ""
 			case *ast.SelectorExpr:
 				e = n.X
 				res = through
+				field = n.Sel.Name
 			case *ast.ParenExpr:
 				e = n.X
 			case *ast.StarExpr:
 				e = n.X
 				res = through
+				field = ""
 			default:
 				return
 			}
@@ -1067,7 +1088,7 @@ func (x *Exec) invariantLoop(st *State, ls *loopSpec, inv []Clause) []outcome {
 	// 2. havoc everything the loop may modify
 	h := st.fork()
 	e := x.env(h)
-	direct, through := assignedIn2(info, ls.body, ls.stmt)
+	direct, through, thruFields := assignedIn3(info, ls.body, ls.stmt)
 	for o := range through {
 		cur, ok := h.vars[o]
 		if !ok {
@@ -1079,7 +1100,18 @@ func (x *Exec) invariantLoop(st *State, ls *loopSpec, inv []Clause) []outcome {
 		case PtrV:
 			if c.Alloc != 0 {
 				cell := navigate(x.memCell(h, c.Alloc), c.Path)
-				x.setMem(h, c.Alloc, c.Path, x.havocLike(e, cell, o.Name()))
+				fs := thruFields[o]
+				if sv, isStruct := cell.(StructV); isStruct && len(fs) > 0 && !fs[""] {
+					// only the fields that the loop writes
+					for f := range fs {
+						if fv, ok := sv.F[f]; ok {
+							p := append(append([]string{}, c.Path...), f)
+							x.setMem(h, c.Alloc, p, x.havocLike(e, fv, o.Name()+"."+f))
+						}
+					}
+				} else {
+					x.setMem(h, c.Alloc, c.Path, x.havocLike(e, cell, o.Name()))
+				}
 			}
 		case SliceV:
 			arr := x.memArr(h, c.Alloc, c.path)
@@ -1187,6 +1219,15 @@ func (x *Exec) invariantLoop(st *State, ls *loopSpec, inv []Clause) []outcome {
 							}
 						}
 					case o.kind == oBreak && (o.label == "" || o.label == ls.label):
+						if fr.c != nil {
+							ae := x.localEnv(o.st)
+							for ai, ac := range fr.c.LoopExitAssert[ls.id] {
+								ae.where = ac.Line
+								t := ae.boolTerm(ae.expr(ac.Expr))
+								x.addObl("assert", fmt.Sprintf("exitassert%s.%d", ls.id, ai+1), o.st, t, ac.Line)
+								o.st.assume(t)
+							}
+						}
 						exits = append(exits, o.st)
 					default:
 						outs = append(outs, o)
@@ -1234,9 +1275,36 @@ func (x *Exec) dryRunHavoc(h *State, ls *loopSpec) {
 		}
 	}
 	for a := range changedMem {
-		if _, ok := h.mem[a]; ok {
-			h.mem[a] = x.havocLike(e, h.mem[a], fmt.Sprintf("mem%d", a))
+		cur, ok := h.mem[a]
+		if !ok {
+			continue
 		}
+		if sv, isStruct := cur.(StructV); isStruct {
+			// only the fields that some path of the iteration changed
+			changed := map[string]bool{}
+			for _, o := range outs {
+				if nv, ok := o.st.mem[a].(StructV); ok {
+					if ov, ok := start.mem[a].(StructV); ok {
+						for f, v := range nv.F {
+							if !sameValue(v, ov.F[f]) {
+								changed[f] = true
+							}
+						}
+					}
+				}
+			}
+			nf := map[string]Value{}
+			for f, v := range sv.F {
+				if changed[f] {
+					nf[f] = x.havocLike(e, v, fmt.Sprintf("mem%d.%s", a, f))
+				} else {
+					nf[f] = v
+				}
+			}
+			h.mem[a] = StructV{F: nf, Typ: sv.Typ}
+			continue
+		}
+		h.mem[a] = x.havocLike(e, cur, fmt.Sprintf("mem%d", a))
 	}
 }
 
@@ -1358,4 +1426,22 @@ func (x *Exec) pointerConfigs(h *State, ls *loopSpec, direct map[types.Object]bo
 	}
 	unsupported("%s: loop %s has too many pointer configurations", x.pos(ls.stmt), ls.id)
 	return nil
+}
+
+// elemCoerce adapts an integer scalar to the element sort of the array it is stored into.
+func elemCoerce(s Scalar, es *Sort) Scalar {
+	if s.T.S == es {
+		return s
+	}
+	if es.K == KBV && s.T.S == IntS {
+		return Scalar{Int2BV(es.W, s.T), s.Typ}
+	}
+	if es == IntS && s.T.S.K == KBV {
+		ii, _ := intInfoOf(s.Typ)
+		if ii.Signed {
+			return Scalar{Ite(BVCmp("bvslt", s.T, BVCi(0, s.T.S.W)), Sub(BV2Nat(s.T), IntB(pow2(s.T.S.W))), BV2Nat(s.T)), s.Typ}
+		}
+		return Scalar{BV2Nat(s.T), s.Typ}
+	}
+	return s
 }
